@@ -334,7 +334,7 @@ func genRouterCase(rng *rand.Rand, bigOK bool) *rcase {
 // ---------------- host part ----------------
 
 type hop struct {
-	K    string `json:"k"` // listenudp listenpacket dialudp dial close probe
+	K    string `json:"k"` // listenudp listenpacket dialudp dial close reclose probe
 	IP   string `json:"ip,omitempty"`
 	Port int    `json:"port,omitempty"`
 	Sock int    `json:"sock,omitempty"` // close: index into open sockets (mod len)
@@ -413,7 +413,7 @@ func runHostCase(c *hcase, r *res.Result) (string, string, int) {
 	for _, ip := range c.IPs {
 		own[ip] = true
 	}
-	var open []*msock
+	var open, closed []*msock
 	defer func() {
 		for _, s := range open {
 			s.conn.Close()
@@ -534,8 +534,24 @@ func runHostCase(c *hcase, r *res.Result) (string, string, int) {
 			if err := open[k].conn.Close(); err != nil {
 				return "host:close-error", fmt.Sprintf("op %d: Close: %v", i, err), i
 			}
+			closed = append(closed, open[k])
 			open = append(open[:k], open[k+1:]...)
 			r.Count("closes", 1)
+		case "reclose":
+			// Close on a handle that is already closed: whatever it returns, it must not touch the address,
+			// which may meanwhile belong to another open socket (the model is left unchanged)
+			if len(closed) == 0 {
+				continue
+			}
+			old := closed[o.Sock%len(closed)]
+			_ = old.conn.Close()
+			r.Count("closes_of_closed_handles", 1)
+			for _, s := range open {
+				if s.port == old.port && (s.ip == old.ip || s.ip == "0.0.0.0" || old.ip == "0.0.0.0") {
+					r.Count("closes_of_closed_handles_with_address_in_use_again", 1)
+					break
+				}
+			}
 		case "probe":
 			// a datagram to (ip,port): loopback from a socket of the host itself, otherwise from the peer through the router
 			probeN++
@@ -711,8 +727,10 @@ func genHostCase(rng *rand.Rand, fill bool) *hcase {
 			c.Ops = append(c.Ops, o)
 		case k < 56:
 			c.Ops = append(c.Ops, hop{K: "dial", Rem: []string{"10.5.200.1:7000", "127.0.0.1:4000"}[rng.Intn(2)]})
-		case k < 76:
+		case k < 72:
 			c.Ops = append(c.Ops, hop{K: "close", Sock: rng.Intn(1000)})
+		case k < 78:
+			c.Ops = append(c.Ops, hop{K: "reclose", Sock: rng.Intn(1000)})
 		default:
 			pip := ips[rng.Intn(len(ips))]
 			if pip == "0.0.0.0" || pip == "10.9.9.9" {
